@@ -243,10 +243,14 @@ def gen_audit(prop):
 
     # lake env overrides LEAN_PATH: call lean directly with the search path we want
     def compile2(path, modname):
-        out = os.path.join(d, *modname.split('.')) + '.olean'
+        # only RxGen/ may exist under d (d is first on the search path: a directory d/RxModel would hide the built model);
+        # link modules do not import one another, their object files are not needed afterwards
+        out = (os.path.join(d, *modname.split('.')) if modname.startswith('RxGen.') else os.path.join(d, '_out', modname)) + '.olean'
         os.makedirs(os.path.dirname(out), exist_ok=True)
-        p = subprocess.run(['lean', '-o', out, path], cwd=LEAN, env=env, stdout=subprocess.PIPE, stderr=subprocess.STDOUT, text=True)
-        errs_ = [l for l in p.stdout.splitlines() if 'error' in l]
+        root = d if path.startswith(d + os.sep) else LEAN
+        p = subprocess.run(['lean', '--root=' + root, '-o', out, path], cwd=LEAN, env=env, stdout=subprocess.PIPE,
+                           stderr=subprocess.STDOUT, text=True)
+        errs_ = [l for l in p.stdout.splitlines() if 'error' in l] or p.stdout.splitlines()[:3]
         return p.returncode == 0, errs_[:6]
     o, e = compile2(src, 'RxGen.Kernels')
     if not o:
